@@ -136,6 +136,35 @@ def task_sw_jet(ctx, cfg, nlayers, degree):
               config=dict(grid=grids.cfg_name(cfg), layers=nlayers, jet_degree=degree), scale_floor=1.0, twin=False)
 
 
+def task_reference(ctx, cfg, levels, lname, lmax, tname, tref):
+  """Total tendency of the dry equations equals the independent weak-form reference model (c05_reference.py) on
+  alias-free inputs: every coefficient with l <= lmax symbolic (state, all levels), orography and T_ref concrete."""
+  from dinosaur import primitive_equations as pe
+  from checks.c05_reference import Reference
+  coords = models.make_coords(cfg, levels)
+  grid = coords.horizontal
+  K = coords.vertical.layers
+  specs = models.unit_specs(g=1.7, R=0.9, omega=0.8, radius=float(grid.radius))
+  rng = np.random.default_rng(12)
+  m, l = grid.modal_mesh
+  sup = grid.mask & (l <= lmax)
+  oro = rng.uniform(-0.3, 0.3, grid.modal_shape) * sup
+  tref = np.asarray(tref, float)
+  eq = pe.PrimitiveEquations(tref, oro, coords, specs)
+  ref = Reference(grid, cfg, levels, R=specs.R, kappa=specs.kappa, g=specs.g, omega=specs.angular_velocity, tref=tref, orography_modal=oro)
+  ctx.encoded(pe.PrimitiveEquations.explicit_terms, pe.PrimitiveEquations.implicit_terms, pe.compute_diagnostic_state, pe.PrimitiveEquations.curl_and_div_tendencies,
+              pe.PrimitiveEquations.nodal_temperature_adiabatic_tendency, pe.PrimitiveEquations.nodal_temperature_vertical_tendency, pe.PrimitiveEquations._t_omega_over_sigma_sp,
+              pe.PrimitiveEquations.horizontal_scalar_advection, pe.PrimitiveEquations.kinetic_energy_tendency, pe.PrimitiveEquations.nodal_log_pressure_tendency,
+              pe.get_geopotential_diff, pe.get_temperature_implicit, pe.div_sec_lat)
+  sp = Space(bits=10)
+  xs = models.pe_state_vars(sp, coords, support=sup)
+
+  def both(v, d, t, p):
+    return _total(eq, 'dry', v, d, t, p), ref.tendency(v, d, t, p)
+  prove_close(ctx, 'reference.total_tendency_equals_pointwise_continuous_equations', both, xs, sp,
+              config=dict(grid=grids.cfg_name(cfg), levels=lname, lmax=lmax, tref=tname), scale_floor=1.0)
+
+
 def task_moist_equals_dry(ctx, cfg, levels, lname):
   """Moist equations with zero humidity equal the dry equations for every state."""
   from dinosaur import primitive_equations as pe
@@ -186,6 +215,11 @@ def make_tasks(tier, seed):
   tasks.append(dict(name='sw-jet-1layer', fn='task_sw_jet', kw=dict(cfg=jet, nlayers=1, degree=2)))
   tasks.append(dict(name='sw-jet-2layer', fn='task_sw_jet', kw=dict(cfg=jet, nlayers=2, degree=2)))
   tasks.append(dict(name='moist-eq-dry', fn='task_moist_equals_dry', kw=dict(cfg=cfg, levels=LS['dy2'].tolist(), lname='dy2')))
+  refg = dict(M=3, L=6, nlon=16, nlat=8, radius=1.3)
+  tasks.append(dict(name='reference-l1', fn='task_reference', kw=dict(cfg=refg, levels=LS['dy3'].tolist(), lname='dy3', lmax=1, tname='linear', tref=np.linspace(0.8, 1.5, 3).tolist())))
+  if tier != 'quick':
+    tasks.append(dict(name='reference-l2', fn='task_reference', kw=dict(cfg=dict(M=4, L=8, nlon=22, nlat=11), levels=LS['dy3'].tolist(), lname='dy3', lmax=2, tname='random', tref=[1.0, 1.25, 1.4])))
+    tasks.append(dict(name='reference-l3-K2', fn='task_reference', kw=dict(cfg=dict(M=4, L=8, nlon=22, nlat=11), levels=LS['dy2'].tolist(), lname='dy2', lmax=3, tname='linear', tref=[0.9, 1.3])))
   if tier != 'quick':
     tasks.append(dict(name='sw-jet-3layer-fast', fn='task_sw_jet', kw=dict(cfg=dict(jet, impl='fast'), nlayers=3, degree=1)))
   return tasks
@@ -202,9 +236,10 @@ def main(tier='quick', seed=0, jobs=None, only=None, t0=None):
       explanation='Balanced families with SYMBOLIC parameters have identically vanishing total tendency (polynomial identities decided by '
                   'the solver): isothermal rest over arbitrary orography (all retained modal coefficients of h symbolic, T0 concrete or symbolic), '
                   'solid-body rotation in gradient-wind balance (U, per-level temperatures, humidity, ln ps symbolic), geostrophic shallow-water '
-                  'jets returned by shallow_water_states (jet coefficients symbolic); moist(q=0) == dry for all states.',
+                  'jets returned by shallow_water_states (jet coefficients symbolic); moist(q=0) == dry for all states; total dry tendency equals an independent '
+                  'weak-form evaluation of the continuous equations (mpmath basis tables, numpy Gauss weights, unsplit documented vertical scheme) on alias-free inputs.',
       bounds=dict(tasks=[t['name'] for t in tasks], eps='1e-9 x max(coefficient mass, 1)'),
       assumptions=['real-arithmetic semantics of the float64 IR', 'O(1) constants (unit_specs)'],
       trusted=['JAX tracing', 'dverif interpreter', 'z3/cvc5'],
-      outside=['steady_state_jw (float-evaluated closed form, only approximately steady)', 'pointwise weak-form reference model (DESIGN App. A) — thorough tier when landed',
+      outside=['steady_state_jw (float-evaluated closed form, only approximately steady)', 'the weak-form reference comparison is restricted to alias-free inputs (l <= 1 quick, <= 3 thorough) of the dry equations',
                'dynamics on equiangular_with_poles (F9)'])
